@@ -16,6 +16,10 @@ pub const ROOT: &str = "/verif";
 
 /// Where evidence and replay files go: /verif, or $NFSIM_OUT for side sweeps that must not
 /// touch the registered evidence.
+pub fn out_dir() -> String {
+    out()
+}
+
 pub fn out() -> String {
     std::env::var("NFSIM_OUT").unwrap_or_else(|_| ROOT.to_string())
 }
@@ -60,8 +64,21 @@ pub fn load_known() -> (Vec<Known>, Vec<String>) {
     (known, fixed)
 }
 
+/// CPU seconds (user + system, all threads) a process has consumed so far. Hang detection is
+/// based on CPU time, not wall-clock time: a spinning parser accumulates CPU, a worker that is
+/// merely starved on a loaded machine does not.
+pub fn cpu_secs(pid: u32) -> Option<f64> {
+    let s = std::fs::read_to_string(format!("/proc/{}/stat", pid)).ok()?;
+    let rest = &s[s.rfind(')')? + 2..];
+    let f: Vec<&str> = rest.split_whitespace().collect();
+    let ut: f64 = f.get(11)?.parse().ok()?;
+    let st: f64 = f.get(12)?.parse().ok()?;
+    Some((ut + st) / 100.0)
+}
+
 struct Worker {
     child: Child,
+    cpu_at_begin: f64,
     inflight: Option<u64>,
     chunk: Option<(u64, u64)>,
     last_activity: Instant,
@@ -92,7 +109,7 @@ fn spawn_worker(exe: &std::path::Path, prop: &str, seed: u64, id: usize, tx: &mp
         }
         let _ = tx.send((id, "EOF".to_string()));
     });
-    Worker { child, inflight: None, chunk: None, last_activity: Instant::now(), alive: true }
+    Worker { child, cpu_at_begin: 0.0, inflight: None, chunk: None, last_activity: Instant::now(), alive: true }
 }
 
 /// per run: what the cross-build comparison and the determinism proof need
@@ -202,6 +219,7 @@ pub fn run_batch_with(exe: &std::path::Path, prop: &str, seed: u64, n: u64, work
                 w.last_activity = Instant::now();
                 if let Some(rest) = line.strip_prefix("BEGIN ") {
                     w.inflight = rest.trim().parse().ok();
+                    w.cpu_at_begin = cpu_secs(w.child.id()).unwrap_or(0.0);
                 } else if let Some(rest) = line.strip_prefix("END ") {
                     w.inflight = None;
                     if let Ok(r) = serde_json::from_str::<RunReport>(rest) {
@@ -284,7 +302,9 @@ pub fn run_batch_with(exe: &std::path::Path, prop: &str, seed: u64, n: u64, work
         }
         // watchdog: the only place a real clock is read; it influences no simulated decision
         for w in ws.iter_mut() {
-            if w.alive && w.inflight.is_some() && w.last_activity.elapsed() > watchdog {
+            let cpu_used = cpu_secs(w.child.id()).map(|c| c - w.cpu_at_begin).unwrap_or(0.0);
+            // `watchdog` is a CPU-time budget for one run; wall-clock is only a distant backstop
+            if w.alive && w.inflight.is_some() && (cpu_used > watchdog.as_secs_f64() || w.last_activity.elapsed() > watchdog * 20) {
                 if let Some(i) = w.inflight.take() {
                     crashes.push((i, "hang"));
                     if let Some((_, b)) = w.chunk.take() {
@@ -305,6 +325,12 @@ pub fn run_batch_with(exe: &std::path::Path, prop: &str, seed: u64, n: u64, work
 }
 
 fn run_with_timeout(cmd: &mut Command, secs: u64) -> Option<(Option<i32>, bool, String)> {
+    run_with_limits(cmd, secs * 20, secs as f64)
+}
+
+/// Runs a child with a wall-clock backstop and a CPU-time limit (the deciding one).
+fn run_with_limits(cmd: &mut Command, wall_secs: u64, cpu_limit: f64) -> Option<(Option<i32>, bool, String)> {
+    let secs = wall_secs;
     let mut child = cmd.stdout(Stdio::piped()).stderr(Stdio::null()).spawn().ok()?;
     let mut out = child.stdout.take()?;
     let h = std::thread::spawn(move || {
@@ -322,7 +348,8 @@ fn run_with_timeout(cmd: &mut Command, secs: u64) -> Option<(Option<i32>, bool, 
                 return Some((status.code(), status.signal().is_some(), s));
             }
             Ok(None) => {
-                if st.elapsed().as_secs() > secs {
+                let cpu = cpu_secs(child.id()).unwrap_or(0.0);
+                if st.elapsed().as_secs() > secs || cpu > cpu_limit {
                     let _ = child.kill();
                     let _ = child.wait();
                     return Some((None, false, "TIMEOUT".into()));
@@ -508,6 +535,8 @@ pub fn check(args: &[String]) -> i32 {
     };
     let tier = arg(args, "--tier").or_else(|| std::env::var("VERIF_TIER").ok()).unwrap_or_else(|| "quick".into());
     let tier = if tier == "thorough" { "thorough" } else { "quick" };
+    // workers (and the trace regeneration in this process) see the same tier
+    std::env::set_var("VERIF_TIER", tier);
     let seed: u64 = std::env::var("VERIF_SEED").ok().and_then(|s| s.parse().ok()).unwrap_or(DEFAULT_SEED);
     // NFSIM_RUNS: side experiments only (blame matrix of the sensitivity runs); never set by bin/check
     let runs: u64 = arg(args, "--runs")
@@ -891,9 +920,25 @@ fn classify(
             println!("violation code={} runs={} :: {}", code, count, super::checks::trunc(&f.message, 600));
             verdict.violations.push((code, out));
         } else {
-            verdict.notes.push(format!("finding {} did not reproduce from its replay file {}; reported as harness problem, not as violation", code, out));
-            println!("HARNESS-PROBLEM: finding {} does not replay deterministically ({})", code, out);
-            verdict.violations.push((format!("{}-unconfirmed", code), out));
+            // A violation is only reported after its replay file reproduced it in a fresh process.
+            // Fall back to the unminimised trace before giving up.
+            let raw_out = format!("{}/replays/{}-{}-unminimised.json", out_dir(), prop, code);
+            let mut confirmed_raw = false;
+            if let Ok(text) = std::fs::read_to_string(&raw) {
+                if let Ok(mut rf) = serde_json::from_str::<ReplayFile>(&text) {
+                    rf.violation.code = code.clone();
+                    rf.violation.message = f.message.clone();
+                    rf.violation.event = f.event;
+                    let _ = std::fs::write(&raw_out, serde_json::to_string(&rf).unwrap());
+                    confirmed_raw = reproduces(exe, &raw_out, &code);
+                }
+            }
+            if confirmed_raw {
+                println!("violation code={} runs={} (minimisation did not hold; unminimised trace) :: {}", code, count, super::checks::trunc(&f.message, 600));
+                verdict.violations.push((code, raw_out));
+            } else {
+                verdict.notes.push(format!("UNCONFIRMED: finding {} ({} runs) did not reproduce from its replay file in a fresh process; not reported as a violation", code, count));
+            }
         }
     }
 }
